@@ -16,9 +16,23 @@
 (*   Probe(r)      every thread has finished; a fresh try_lock returned r  *)
 (* Logged ownership intervals are sub-intervals of the real ones, so an    *)
 (* overlap in the log is an overlap in reality.                            *)
+(*                                                                         *)
+(* PROP switch (environment variable PROP, default "C15"):                 *)
+(*  "C15"  mutual exclusion / exactly-once / cancelled never owns / FIFO / *)
+(*         no lost waiter / lock not leaked (the rules described above)    *)
+(*  "C11"  only the scheduler-affinity clause for the cancellable mutex    *)
+(*         (is_always_scheduler_affine): every harness thread t is a       *)
+(*         context with its own recording manual scheduler, drained only   *)
+(*         by t; the receiver of an attempt started by t reports that      *)
+(*         scheduler.  If the attempt was started on t and every stop      *)
+(*         request for it was issued on t, its completion (Acquired or     *)
+(*         Done) must be delivered on t - even when the unlock that grants *)
+(*         the lock runs on a foreign thread.                              *)
 (***************************************************************************)
 EXTENDS Naturals, Sequences, FiniteSets, TLC, TraceIO
 Att == 1..6
+Prop == IF "PROP" \in DOMAIN IOEnv THEN IOEnv.PROP ELSE "C15"
+P15 == Prop = "C15"
 VARIABLES l,         \* next line of the log
           ver,       \* 1 | 2
           phase,     \* [Att -> "idle"|"started"|"own"|"done"|"released"|"failed"]
@@ -26,47 +40,60 @@ VARIABLES l,         \* next line of the log
           stopped,   \* [Att -> BOOLEAN]  a stop request has been issued
           pred,      \* [Att -> SUBSET Att] attempts that were queued (start returned, still waiting) when a's start began
           holder,    \* 0 | the attempt that owns the mutex
-          probe      \* 2 not probed yet | result (0,1) of the final fresh try_lock
-vars == <<l, ver, phase, ended, stopped, pred, holder, probe>>
+          probe,     \* 2 not probed yet | result (0,1) of the final fresh try_lock
+          startT,    \* [Att -> thread (= context) on which the attempt was started, 0 = not started]
+          stopT      \* [Att -> set of threads that issued a stop request for the attempt]
+vars == <<l, ver, phase, ended, stopped, pred, holder, probe, startT, stopT>>
 E == Log[l]
 Is(e) == l <= Len(Log) /\ E.e = e /\ l' = l + 1
 Fresh(v, p) == /\ ver' = v /\ phase' = [a \in Att |-> "idle"] /\ ended' = [a \in Att |-> FALSE]
                /\ stopped' = [a \in Att |-> FALSE] /\ pred' = [a \in Att |-> {}] /\ holder' = 0 /\ probe' = p
+               /\ startT' = [a \in Att |-> 0] /\ stopT' = [a \in Att |-> {}]
 Init == /\ l = 1 /\ ver = 1 /\ phase = [a \in Att |-> "idle"] /\ ended = [a \in Att |-> FALSE]
-        /\ stopped = [a \in Att |-> FALSE] /\ pred = [a \in Att |-> {}] /\ holder = 0 /\ probe = 1 /\ TrackInit
+        /\ stopped = [a \in Att |-> FALSE] /\ pred = [a \in Att |-> {}] /\ holder = 0 /\ probe = 1
+        /\ startT = [a \in Att |-> 0] /\ stopT = [a \in Att |-> {}] /\ TrackInit
 \* end-of-execution obligations (all threads have finished, every owner has unlocked):
 \*  no holder, every lock attempt ended in Acquired or Done (none is lost), the lock is not leaked (fresh try_lock succeeds)
-Closed == /\ holder = 0
-          /\ \A a \in Att : phase[a] \notin {"started", "own"}
-          /\ probe = 1
+Closed == P15 => /\ holder = 0
+                 /\ \A a \in Att : phase[a] \notin {"started", "own"}
+                 /\ probe = 1
+\* C11: the completion of an attempt that was started on context startT[a] and only stopped from there arrives there
+Affine(a, t) == (Prop = "C11" /\ ver = 2 /\ stopT[a] \subseteq {startT[a]}) => t = startT[a]
 Reset == /\ Is("Reset") /\ Closed /\ Fresh(E.r, 2)
 LockStart == /\ Is("LockStart") /\ phase[E.a] = "idle" /\ probe = 2
              /\ phase' = [phase EXCEPT ![E.a] = "started"]
              /\ pred' = [pred EXCEPT ![E.a] = {b \in Att : phase[b] = "started" /\ ended[b]}]
-             /\ UNCHANGED <<ver, ended, stopped, holder, probe>>
+             /\ startT' = [startT EXCEPT ![E.a] = E.t]
+             /\ UNCHANGED <<ver, ended, stopped, holder, probe, stopT>>
 StartEnd == /\ Is("StartEnd") /\ phase[E.a] # "idle" /\ ~ended[E.a]
             /\ ended' = [ended EXCEPT ![E.a] = TRUE]
-            /\ UNCHANGED <<ver, phase, stopped, pred, holder, probe>>
+            /\ UNCHANGED <<ver, phase, stopped, pred, holder, probe, startT, stopT>>
 \* mutual exclusion; each attempt completes at most once; a cancelled (Done) attempt never owns;
 \* v2: FIFO among waiters - whoever was already queued when a's start began (and has not been stopped) is served first
-Acquired == /\ Is("Acquired") /\ phase[E.a] = "started" /\ holder = 0
-            /\ (ver = 2 /\ ended[E.a]) => \A b \in pred[E.a] : phase[b] # "started" \/ stopped[b]
+Acquired == /\ Is("Acquired")
+            /\ P15 => (phase[E.a] = "started" /\ holder = 0)
+            /\ (P15 /\ ver = 2 /\ ended[E.a]) => \A b \in pred[E.a] : phase[b] # "started" \/ stopped[b]
+            /\ Affine(E.a, E.t)
             /\ phase' = [phase EXCEPT ![E.a] = "own"] /\ holder' = E.a
-            /\ UNCHANGED <<ver, ended, stopped, pred, probe>>
-Done == /\ Is("Done") /\ phase[E.a] = "started" /\ stopped[E.a] /\ ver = 2
+            /\ UNCHANGED <<ver, ended, stopped, pred, probe, startT, stopT>>
+Done == /\ Is("Done")
+        /\ P15 => (phase[E.a] = "started" /\ stopped[E.a] /\ ver = 2)
+        /\ Affine(E.a, E.t)
         /\ phase' = [phase EXCEPT ![E.a] = "done"]
-        /\ UNCHANGED <<ver, ended, stopped, pred, holder, probe>>
+        /\ UNCHANGED <<ver, ended, stopped, pred, holder, probe, startT, stopT>>
 TryLock == /\ Is("TryLock") /\ phase[E.a] = "idle" /\ probe = 2
-           /\ IF E.r = 1 THEN /\ holder = 0 /\ holder' = E.a /\ phase' = [phase EXCEPT ![E.a] = "own"]
+           /\ IF E.r = 1 THEN /\ (P15 => holder = 0) /\ holder' = E.a /\ phase' = [phase EXCEPT ![E.a] = "own"]
                          ELSE /\ holder' = holder /\ phase' = [phase EXCEPT ![E.a] = "failed"]
-           /\ UNCHANGED <<ver, ended, stopped, pred, probe>>
-Unlock == /\ Is("Unlock") /\ holder = E.a /\ phase[E.a] = "own"
+           /\ UNCHANGED <<ver, ended, stopped, pred, probe, startT, stopT>>
+Unlock == /\ Is("Unlock")
+          /\ P15 => (phase[E.a] = "own" /\ holder = E.a)
           /\ holder' = 0 /\ phase' = [phase EXCEPT ![E.a] = "released"]
-          /\ UNCHANGED <<ver, ended, stopped, pred, probe>>
+          /\ UNCHANGED <<ver, ended, stopped, pred, probe, startT, stopT>>
 Stop == /\ Is("Stop") /\ stopped' = [stopped EXCEPT ![E.a] = TRUE]
-        /\ UNCHANGED <<ver, phase, ended, pred, holder, probe>>
+        /\ stopT' = [stopT EXCEPT ![E.a] = @ \cup {E.t}]
+        /\ UNCHANGED <<ver, phase, ended, pred, holder, probe, startT>>
 Probe == /\ Is("Probe") /\ probe = 2 /\ probe' = E.r
-         /\ UNCHANGED <<ver, phase, ended, stopped, pred, holder>>
+         /\ UNCHANGED <<ver, phase, ended, stopped, pred, holder, startT, stopT>>
 Next == Reset \/ LockStart \/ StartEnd \/ Acquired \/ Done \/ TryLock \/ Unlock \/ Stop \/ Probe
 Spec == Init /\ [][Next]_vars
 Track == TrackAt(l, Closed)
